@@ -345,7 +345,8 @@ def run(model, tier):
         'assigned before use, and the resulting six moduli satisfy E = G(3L+2G)/(L+G), nu = L/(2(L+G)), K = L + 2G/3, '
         'M = L + 2G as algebraic identities in the two given parameters (so they describe one material and reproduce the '
         'given values). (iv) each block calls exactly one positive-definiteness check with (name, value) arguments that '
-        'refer to the same modulus. That radstrn is d(displ)/dr (two separately coded closed forms) is not decided.')
+        'refer to the same modulus. That radstrn is d(displ)/dr, the elastic wave equation, the cavity-wall condition and continuity at the wave front are '
+        'decided by sa/rules/c15_wave.py (normal-form differentiation).')
     res.rule_text = 'instances: dimension constraints, field identities, 15 blocks x (definitions, 4 identities, check pairing)'
     res.trusted_base = ['CPython ast', 'sympy polynomial arithmetic (cancel/expand)', 'NF engine']
     hooke(model, res)
@@ -358,4 +359,6 @@ def run(model, tier):
         # the fields are already reported as not following from the instance's moduli; the
         # dimension pass then has nothing to anchor on
         res.notes.append('dimension pass skipped: %s' % e)
+    from . import c15_wave
+    c15_wave.wave(model, res)
     return res
